@@ -584,26 +584,36 @@ class Generator(TreeListener):
         # is not strictly necessary, see the Modelica Spec on if statements.
         assert tree.conditions[-1] is True
 
-        expanded_blocks = OrderedDict()
-
+        # Execute every branch on its own, statement by statement, so that a right-hand side
+        # sees the assignments made before it in the same branch.  The result per branch is the
+        # final value of each assigned variable in terms of the values before the if-statement.
+        finals = []
         for b in tree.blocks:
+            vals = OrderedDict()
             for s in b:
-                assignments = self.get_mx(s)
-                for assignment in assignments:
-                    expanded_blocks.setdefault(assignment.left, []).append(assignment.right)
+                for assignment in self.get_mx(s):
+                    [vals[assignment.left]] = ca.substitute(
+                        [ca.MX(assignment.right)], list(vals.keys()), list(vals.values())
+                    )
+            finals.append(vals)
 
-        assert len({len(x) for x in expanded_blocks.values()}) == 1
+        lhss = list(finals[0].keys())
+        assert all(len(f) == len(lhss) and all(k in f for k in lhss) for f in finals)
 
-        all_assignments = []
+        # Merge the branches (conditions are evaluated on the values before the if-statement),
+        # assign the merged values to fresh temporaries first and only then to the variables, so
+        # that all variables change simultaneously.
+        tmp_assignments = []
+        var_assignments = []
+        for lhs in lhss:
+            src = finals[-1][lhs]
+            for cond, f in zip(tree.conditions[-2::-1], finals[-2::-1]):
+                src = ca.if_else(self.get_mx(cond), f[lhs], src, True)
+            tmp = _new_mx("_pymoca_if_{}_{}".format(id(tree), lhs.name()), *lhs.shape)
+            tmp_assignments.append(Assignment(tmp, src))
+            var_assignments.append(Assignment(lhs, tmp))
 
-        for lhs, values in expanded_blocks.items():
-            # Set default value to else block, and then loop in reverse over all branches
-            src = values[-1]
-            for cond, rhs in zip(tree.conditions[-2::-1], values[-2::-1]):
-                cond = self.get_mx(cond)
-                src = ca.if_else(cond, rhs, src, True)
-
-            all_assignments.append(Assignment(lhs, src))
+        all_assignments = tmp_assignments + var_assignments
 
         self.src[tree] = all_assignments
 
